@@ -406,6 +406,16 @@ fn execute(prog: Program, scenario: String) -> Outcome {
                 out.setup = Err("setup_unstable".into());
                 return out;
             }
+            // the other database of the node is persisted as well (it keeps its metadata file and its id)
+            if a.exec("use-db n tok").resp.is_err() {
+                return out;
+            }
+            a.exec("set other 1");
+            a.exec("snapshot false");
+            if !w.declutter_tick(0, 10_000) {
+                out.setup = Err("setup_unstable".into());
+                return out;
+            }
         }
         if prog.legacy_clean_stop {
             w.sigint(0);
